@@ -79,6 +79,9 @@ def plan(tier, seed):
     specs = []
     specs += _hist_plan(tier, seed)
     specs += fix.sandwich_specs(tier, seed)
+    for n_ in (0, 1, 2):
+        for order in fix.orders(n_):
+            specs.append(dict(kind='small', n=n_, order=order, seed=seed))
     # the Function operators and comparisons of dd.autoref, with handles
     # released and node numbers re-used across collections / reorderings
     for s_ in range(6 if tier == 'thorough' else 3):
@@ -187,6 +190,81 @@ def run_pairs(spec, out):
     out.sample(dict(base, op=BIN[0], u=23, v=142,
                     result=tt.BINARY[BIN[0]](23, 142, n)))
     out.exhaustive = True
+
+
+def run_small(spec, out):
+    """Managers with 0, 1 or 2 variables: every alias on every pair,
+    every ITE triple, every Function operator (boundary cases: constants
+    only, a single variable)."""
+    import dd.autoref as _ar
+    n = spec['n']
+    nm = fix.names(n)
+    F = tt.full(n)
+    b = fix.new_bdd(spec['order'])
+    refs = fix.build_all(b, nm)
+    den = Den(b, nm)
+    base = dict(kind='small', n=n, order=spec['order'])
+    cnt = 0
+    for op in tt.UNARY:
+        for t, u in enumerate(refs):
+            cnt += 1
+            r = b.apply(op, u)
+            if r != refs[~t & F]:
+                out.fail('unary.wrong_result', dict(base, op=op, u=t))
+    for op in BIN:
+        fn = tt.BINARY[op]
+        for tu, u in enumerate(refs):
+            for tv, v in enumerate(refs):
+                cnt += 1
+                case = dict(base, op=op, u=tu, v=tv)
+
+                def body():
+                    r = b.apply(op, u, v)
+                    require(r == refs[fn(tu, tv, n)] and
+                            den(r) == fn(tu, tv, n),
+                            'binary.wrong_result', dict(got=den(r)))
+                out.guard(case, body)
+    for tg, g in enumerate(refs):
+        for tu, u in enumerate(refs):
+            for tv, v in enumerate(refs):
+                cnt += 1
+                case = dict(base, op='ite', g=tg, u=tu, v=tv)
+
+                def body():
+                    want = tt.ite(tg, tu, tv, n)
+                    r1 = b.ite(g, u, v)
+                    r2 = b.apply('ite', g, u, v)
+                    require(r1 == refs[want] and r2 == refs[want],
+                            'ite.wrong_result', dict(got=den(r1)))
+                out.guard(case, body)
+    A = _ar.BDD()
+    A.declare(*spec['order'])
+    abd = Builder(A._bdd, nm)
+    fs = [_ar.Function(abd(t), A) for t in range(F + 1)]
+    aden = Den(A._bdd, nm)
+    for tu, u in enumerate(fs):
+        for tv, v in enumerate(fs):
+            cnt += 1
+            case = dict(base, op='Function operators', u=tu, v=tv)
+
+            def body():
+                require(aden((u & v).node) == tu & tv, 'function.and')
+                require(aden((u | v).node) == tu | tv, 'function.or')
+                require(aden((~u).node) == ~tu & F, 'function.invert')
+                require(aden(u.implies(v).node) == tt.c_implies(tu, tv, n),
+                        'function.implies')
+                require(aden(u.equiv(v).node) == tt.c_equiv(tu, tv, n),
+                        'function.equiv')
+                require((u <= v) == ((tu & ~tv & F) == 0), 'function.le')
+                require((u < v) == ((tu & ~tv & F) == 0 and tu != tv),
+                        'function.lt')
+                require((u == v) == (tu == tv), 'function.eq')
+                require((u != v) == (tu != tv), 'function.ne')
+            out.guard(case, body)
+    out.count(cnt, max(2, cnt // 4))
+    out.sample(dict(base, op='ite', g=1, u=0, v=F))
+    out.exhaustive = True
+    del fs
 
 
 def run_ite(spec, out):
@@ -426,4 +504,4 @@ def run(spec, out):
         from ..env import HarnessError
         raise HarnessError(f'aliases without oracle entry: {missing}')
     dict(pairs=run_pairs, ite=run_ite, autoref=run_autoref,
-         random=run_random)[spec['kind']](spec, out)
+         random=run_random, small=run_small)[spec['kind']](spec, out)
